@@ -4,8 +4,10 @@ From V.C12 Require Import Model Proofs Frames Top Table Harness.
 Import ListNotations.
 Local Open Scope N_scope.
 
-(* A CALL / CALLCODE / DELEGATECALL / STATICCALL frame that fails (REVERT or any EVM error, at any depth, with
-   any program table, whatever its own sub-frames did) leaves every query - existence, nonce, code, suicided
+(* A CALL / CALLCODE / DELEGATECALL / STATICCALL frame that fails (REVERT, INVALID, write protection, out of gas
+   after any number of its actions - the oracle list in the state is arbitrary -, depth limit, insufficient
+   balance, a failing precompile, an error of a custom opcode; at any depth, with any program table, whatever its
+   own sub-frames and the custom opcodes STAKE / UNSTAKE / UNSTAKEALL / AUTHCALL in it did) leaves every query - existence, nonce, code, suicided
    flag, balance, storage, transient storage, access list, refund, the log list of every hash - and the
    journal and revision stack exactly as they were when the frame was entered. *)
 Theorem C12_failed_call_noop : forall progs fuel cx kind target value s o l s',
@@ -22,18 +24,61 @@ Theorem C12_failed_create_noop : forall progs fuel cx value init s o l s',
 Proof. exact failed_create_noop. Qed.
 Print Assumptions C12_failed_create_noop.
 
-(* Nothing executed inside a STATICCALL, at any nesting depth and however it ends, changes the data or
-   appends a journal entry (for the opcodes of the model: see C12_static_table_* for the opcode table). *)
+(* Nothing executed inside a STATICCALL, at any nesting depth and however it ends (out of gas anywhere included),
+   changes the data or appends a journal entry - under the two guards that exclude the listed defects: no program
+   of the table uses STAKE / UNSTAKE / UNSTAKEALL / AUTHCALL (custom_free), and the accounts of the precompiled
+   contracts exist (pc_exist: evm.Call creates the account of an absent precompile even in a static frame).
+   Without the guards the statement is false for the code as it is: C12_static_*_refuted below. *)
 Theorem C12_static_call_pure : forall progs fuel cx target value s o l s',
-  wf s -> do_call (run progs fuel) cx KStatic target value s = (o, l, s') ->
+  wf s -> custom_free progs -> pc_exist (dat s) ->
+  do_call (run progs fuel) cx KStatic target value s = (o, l, s') ->
   dat s' = dat s /\ journal s' = journal s.
 Proof. exact static_call_pure. Qed.
 Print Assumptions C12_static_call_pure.
 
 Theorem C12_static_frame_pure : forall progs fuel cx c s o l s',
-  wf s -> static cx = true -> run progs fuel cx c s = (o, l, s') -> dat s' = dat s /\ journal s' = journal s.
+  wf s -> custom_free progs -> pc_exist (dat s) -> static cx = true ->
+  run progs fuel cx c s = (o, l, s') -> dat s' = dat s /\ journal s' = journal s.
 Proof. exact static_frame_pure. Qed.
 Print Assumptions C12_static_frame_pure.
+
+Theorem C12_static_stake_refuted :
+  let '(o, l, s1) := exec_tx progsS 5 (mkTx 1 0 1 (TCall 11 0) []) s0 in
+  o = OOk /\ reg_stake (dat s1) 12 = 802 /\ bal (dat s1) 12 = 5 * unit18.
+Proof. exact static_stake_modifies. Qed.
+
+Theorem C12_static_authcall_refuted :
+  let '(o, l, s1) := exec_tx progsA 5 (mkTx 1 0 1 (TCall 11 0) []) s0 in
+  o = OOk /\ nonce_of (dat s1) 50 = 1 /\ bal (dat s1) 1 = 991 /\ bal (dat s1) 13 = 9.
+Proof. exact static_authcall_modifies. Qed.
+
+Theorem C12_static_precompile_touch_refuted :
+  let '(o, l, s1) := exec_tx progsP 5 (mkTx 1 0 1 (TCall 11 0) []) s0 in
+  o = OOk /\ exists_of d0 21 = false /\ exists_of (dat s1) 21 = true.
+Proof. exact static_precompile_touch. Qed.
+
+(* A failed AUTHCALL frame (evm.AuthCall) leaves exactly the authority's nonce bump, or nothing. *)
+Theorem C12_failed_authcall_noop : forall progs fuel cx authority target value s o l s',
+  wf s -> do_authcall (run progs fuel) cx authority target value s = (o, l, s') -> is_fail o = true ->
+  untouched s s' \/ untouched (authcall_pre authority s) s'.
+Proof. exact failed_authcall_noop. Qed.
+Print Assumptions C12_failed_authcall_noop.
+
+(* Creation whose code deposit cannot be paid (ErrCodeStoreOutOfGas): CREATE reports failure but evm.create does
+   not revert - the account (nonce 1), the constructor's storage and the endowment stay (listed finding).
+   C12_failed_create_noop covers every other failure of a creation (is_fail excludes this outcome). *)
+Theorem C12_failed_create_codestore_refuted :
+  let '(o, l, s1) := do_create progsD (run progsD 5) (mkCtx 11 false 1 1) 3 2 (with_oracle s0 [100; 1000]) in
+  o = OCodeStore /\ exists_of (dat s1) 100 = true /\ nonce_of (dat s1) 100 = 1 /\ state_of (dat s1) 100 1 = 6 /\
+  bal (dat s1) 100 = 3 /\ code_of (dat s1) 100 = 0.
+Proof. exact codestore_not_reverted. Qed.
+
+(* STAKE / UNSTAKE inside a frame that then fails: registry, escrow and balance are restored. *)
+Theorem C12_reverted_stake_undone :
+  let '(o, l, s1) := exec_tx progsU 5 (mkTx 1 0 1 (TCall 11 0) []) s0 in
+  o = OOk /\ reg_stake (dat s1) 12 = 800 /\ reg_status (dat s1) 12 = 1 /\ bal (dat s1) 12 = 7 * unit18 /\
+  state_of (dat s1) 901 1001 = 0 /\ exists_of (dat s1) 901 = false.
+Proof. exact reverted_stake_undone. Qed.
 
 (* Right after Prepare the access list and the transient storage are empty, the log list of a fresh hash is
    empty, and accounts, storage and balances are unchanged. *)
@@ -108,6 +153,6 @@ Example C12_example :
   let '(o, l, s1) := exec_tx progs0 6 tx0 s0 in
   o = OOk /\
   state_of (dat s1) 11 1 = 4 /\ state_of (dat s1) 12 1 = 9 /\ tstor (dat s1) 12 1 = 0 /\
-  bal (dat s1) 11 = 100 /\ bal (dat s1) 12 = 0 /\ exists_of (dat s1) 100 = false /\ nonce_of (dat s1) 12 = 1 /\
+  bal (dat s1) 11 = 100 /\ bal (dat s1) 12 = 7 * unit18 /\ exists_of (dat s1) 100 = false /\ nonce_of (dat s1) 12 = 1 /\
   map l_topic (logs (dat s1) 1) = [3] /\ map l_index (logs (dat s1) 1) = [0].
 Proof. split; [exact wf_s0 | vm_compute; repeat split; reflexivity]. Qed.
